@@ -635,8 +635,38 @@ func returnsLoadOf(fn *ssa.Function, al *ssa.Alloc) bool {
 		}
 		for _, res := range ret.Results {
 			if ld, ok := res.(*ssa.UnOp); ok && ld.Op == token.MUL && ld.X == ssa.Value(al) {
+				if nothingToClone(fn, b) {
+					continue // the input is handed back where it holds no reference into the runtime (a primitive payload)
+				}
 				return true
 			}
+		}
+	}
+	return false
+}
+
+// nothingToClone: block b is reached only after a comma-ok assertion of a payload to *object has failed - the test the
+// cloner's own value method makes: a Value whose payload is not an object holds nothing of the original runtime.
+func nothingToClone(fn *ssa.Function, b *ssa.BasicBlock) bool {
+	for _, tb := range fn.Blocks {
+		iff, ok := tb.Instrs[len(tb.Instrs)-1].(*ssa.If)
+		if !ok {
+			continue
+		}
+		ex, ok := iff.Cond.(*ssa.Extract)
+		if !ok || ex.Index != 1 {
+			continue
+		}
+		ta, ok := ex.Tuple.(*ssa.TypeAssert)
+		if !ok || !ta.CommaOk || !typeIs(ta.AssertedType, ottoPath, "object") {
+			continue
+		}
+		if valueOfPayload(ta.X) == nil {
+			continue
+		}
+		no := tb.Succs[1]
+		if len(no.Preds) == 1 && (no == b || no.Dominates(b)) {
+			return true
 		}
 	}
 	return false
